@@ -178,7 +178,7 @@ def run_task(task, acc):
     acc.count(f'ok:{pre[0][0]}')
     acc.outcome('state', hash(history.canon(c)))
     monitor(c, s, pre, acc)
-    history.explore(s, pre, task['depth'], acc, monitor, task['level'])
+    history.explore(s, pre, min(task['depth'], 2) if task.get('variant') else task['depth'], acc, monitor, task['level'])  # object variants: depth 2 in both tiers
     acc.sample({'start': s, 'history': pre})
 
 
